@@ -1,8 +1,10 @@
 /-
   Props/C08.lean — C08: forward schedules are tight; dates encode used capacity.
-  PARTIAL: the no-idle-days clause is proved when no task that has children carries a dependency link (finding KF-S3),
-  the encoding clause when every clock reading lies on a day before the project start day (finding KF-S6); the
-  WBS-order clause is proved in full; the removal clause (balancing off) rests on the correspondence stream only.
+  PARTIAL: the no-idle-days clause is proved when no task that has children carries a dependency link (finding KF-S3;
+  links stored on both ends, clock or project start not before 1970-01-01), the encoding clause when every clock
+  reading lies on a day before the project start day (finding KF-S6); the WBS-order clause is proved for every WBS
+  that is a forest with consistent parent pointers and symmetric links (what C01 gives for reachable graphs); the
+  removal clause (balancing off) rests on the correspondence stream only.
 -/
 import PjVerif.Lemmas.SchedC08
 import PjVerif.Props.Witness
@@ -30,10 +32,14 @@ theorem C08_encode_partial (env : Env) (f0 : Uid → Fields) (res0 : List (Optio
   exact C08.encode_partial env f0 res0 o hb h
 
 /-- among leaves that take part in no dependency (neither themselves nor through an ancestor) capacity is handed out
-    in WBS order: the usage rows of an earlier one all precede those of a later one -/
+    in WBS order: the usage rows of an earlier one all precede those of a later one.  Domain: the WBS is a forest
+    whose parent pointers mirror the children lists (`membersNodup`, `childrenOK`: otherwise a task listed twice, or
+    a leaf whose parent pointer hides an ancestor that carries a link, breaks the clause) and links are stored on
+    both ends (`linksSym`) -/
 theorem C08_order (env : Env) (f0 : Uid → Fields) (res0 : List (Option Nat × Cal)) (o : Output)
-    (hf : env.flagsOK) (h : forwardCalc env f0 res0 = .ok o) : c08Order env o = true := by
-  sorry
+    (hf : env.flagsOK) (hl : env.linksSym) (hch : env.childrenOK) (hn : env.membersNodup)
+    (h : forwardCalc env f0 res0 = .ok o) : c08Order env o = true := by
+  exact C08.order_holds env f0 res0 o hf hl hch hn h
 
 /-- the full no-idle statement fails on the model as on the code (findings/KF-S3-C08.json) -/
 theorem C08_noIdle_full_fails :
